@@ -2863,6 +2863,81 @@ fn onchain_dedup_battery(_a: &mut Vec<i128>) -> String {
 	}
 }
 
+/// two_edge_raa_probe: C forwards two payments over the same outbound channel C-D that came in over two different
+/// channels (A-C, B-C); D claims both; both preimage updates of C's inbound-edge monitors are left in progress; then only
+/// the A-C one completes. Output: `1` iff C still holds back the C-D monitor update that lets that monitor forget the
+/// preimages (the B-C monitor does not durably have its preimage yet), `0` if it was released (ported from the
+/// demonstration of seeded change C02r7-m1).
+fn two_edge_raa_probe(_a: &mut Vec<i128>) -> String {
+	use lightning::chain::ChannelMonitorUpdateStatus;
+	use lightning::ln::msgs::{ChannelMessageHandler, MessageSendEvent};
+	let chanmon_cfgs = create_chanmon_cfgs(4);
+	let node_cfgs = create_node_cfgs(4, &chanmon_cfgs);
+	let node_chanmgrs = create_node_chanmgrs(4, &node_cfgs, &[None, None, None, None]);
+	let nodes = create_network(4, &node_cfgs, &node_chanmgrs);
+	let node_c_id = nodes[2].node.get_our_node_id();
+	let node_d_id = nodes[3].node.get_our_node_id();
+	let chan_id_ac = create_announced_chan_between_nodes(&nodes, 0, 2).2;
+	let _chan_id_bc = create_announced_chan_between_nodes(&nodes, 1, 2).2;
+	let chan_id_cd = create_announced_chan_between_nodes(&nodes, 2, 3).2;
+	let (preimage_a, _hash_a, ..) = route_payment(&nodes[0], &[&nodes[2], &nodes[3]], 1_000_000);
+	let (preimage_b, _hash_b, ..) = route_payment(&nodes[1], &[&nodes[2], &nodes[3]], 1_000_000);
+	nodes[3].node.claim_funds(preimage_a);
+	check_added_monitors(&nodes[3], 1);
+	let _ = nodes[3].node.get_and_clear_pending_events();
+	let mut ds_updates = get_htlc_update_msgs(&nodes[3], &node_c_id);
+	chanmon_cfgs[2].persister.set_update_ret(ChannelMonitorUpdateStatus::InProgress);
+	nodes[2].node.handle_update_fulfill_htlc(node_d_id, ds_updates.update_fulfill_htlcs.remove(0));
+	check_added_monitors(&nodes[2], 1);
+	let _ = nodes[2].node.get_and_clear_pending_msg_events();
+	nodes[2].node.handle_commitment_signed_batch_test(node_d_id, &ds_updates.commitment_signed);
+	check_added_monitors(&nodes[2], 1);
+	let (cs_raa, cs_cs) = get_revoke_commit_msgs(&nodes[2], &node_d_id);
+	nodes[3].node.handle_revoke_and_ack(node_c_id, &cs_raa);
+	check_added_monitors(&nodes[3], 1);
+	nodes[3].node.handle_commitment_signed_batch_test(node_c_id, &cs_cs);
+	check_added_monitors(&nodes[3], 1);
+	let ds_final_raa = lightning::get_event_msg!(nodes[3], MessageSendEvent::SendRevokeAndACK, node_c_id);
+	nodes[2].node.handle_revoke_and_ack(node_d_id, &ds_final_raa);
+	check_added_monitors(&nodes[2], 0);
+	nodes[3].node.claim_funds(preimage_b);
+	check_added_monitors(&nodes[3], 1);
+	let _ = nodes[3].node.get_and_clear_pending_events();
+	let mut ds_updates = get_htlc_update_msgs(&nodes[3], &node_c_id);
+	chanmon_cfgs[2].persister.set_update_ret(ChannelMonitorUpdateStatus::InProgress);
+	nodes[2].node.handle_update_fulfill_htlc(node_d_id, ds_updates.update_fulfill_htlcs.remove(0));
+	check_added_monitors(&nodes[2], 1);
+	let _ = nodes[2].node.get_and_clear_pending_msg_events();
+	let (ac_update_id, _) = nodes[2].chain_monitor.get_latest_mon_update_id(chan_id_ac);
+	nodes[2].chain_monitor.added_monitors.lock().unwrap().clear();
+	nodes[2].chain_monitor.chain_monitor.channel_monitor_updated(chan_id_ac, ac_update_id).unwrap();
+	let _ = nodes[2].node.get_and_clear_pending_events();
+	let _ = nodes[2].node.get_and_clear_pending_msg_events();
+	// released = a monitor update for C-D reached the chain monitor
+	let held = nodes[2].chain_monitor.added_monitors.lock().unwrap().iter().filter(|(id, _)| *id == chan_id_cd).count() == 0;
+	nodes[2].chain_monitor.added_monitors.lock().unwrap().clear();
+	for n in 0..4 {
+		let _ = nodes[n].node.get_and_clear_pending_events();
+		let _ = nodes[n].node.get_and_clear_pending_msg_events();
+		nodes[n].chain_monitor.added_monitors.lock().unwrap().clear();
+	}
+	core::mem::forget(nodes);
+	format!("{}", held as u8)
+}
+
+/// two_edge_raa_battery: two_edge_raa_probe must report 1. Output: `<bad> <total>`.
+fn two_edge_raa_battery(_a: &mut Vec<i128>) -> String {
+	match catch_unwind(AssertUnwindSafe(|| two_edge_raa_probe(&mut vec![]))) {
+		Ok(v) if v == "1" => "0 1".to_string(),
+		other => {
+			if std::env::var("ORACLE_DEBUG").is_ok() {
+				eprintln!("two_edge_raa_battery: {:?} (wanted 1)", other.ok());
+			}
+			"1 1".to_string()
+		},
+	}
+}
+
 fn main() {
 	if std::env::var("ORACLE_DEBUG").is_err() { std::panic::set_hook(Box::new(|_| {})); }
 	let stdin = std::io::stdin();
@@ -2878,6 +2953,8 @@ fn main() {
 		let mut args: Vec<i128> = it.map(|x| x.parse::<i128>().expect("bad int")).collect();
 		let r = catch_unwind(AssertUnwindSafe(|| match name.as_str() {
 			"forward_probe" => forward_probe(&mut args),
+			"two_edge_raa_probe" => two_edge_raa_probe(&mut args),
+			"two_edge_raa_battery" => two_edge_raa_battery(&mut args),
 			"dup_hash_onchain_probe" => dup_hash_onchain_probe(&mut args),
 			"onchain_dedup_battery" => onchain_dedup_battery(&mut args),
 			"early_fail_back_probe" => early_fail_back_probe(&mut args),
